@@ -6,6 +6,7 @@ import Driver.Extract
 import Driver.Sexp
 import Driver.Pool
 import Driver.Scheduler
+import Driver.EGraph
 open Driver
 
 structure St where
@@ -13,6 +14,7 @@ structure St where
   mg : MgSt := {}
   sc : ScSt := {}
   tb : TbSt := {}
+  eg : EgSt := {}
   ex : ExSt := {}
 
 def dispatch (s : St) (line : String) : St × String :=
@@ -25,6 +27,7 @@ def dispatch (s : St) (line : String) : St × String :=
   | "sx" :: rest => (s, sxStep rest)
   | "pool" :: rest => (s, poolStep rest)
   | "sch" :: rest => (s, schStep rest)
+  | "eg" :: rest => let (p, o) := egStep s.eg rest; ({ s with eg := p }, o)
   | _ => (s, "bad-op")
 
 partial def loop (h : IO.FS.Stream) (out : IO.FS.Stream) (s : St) : IO Unit := do
